@@ -206,6 +206,13 @@ def random_single(draw):
         for b in bits:
             wild |= 1 << b
     base = draw(base_st())
+    if draw(st.integers(0, 5)) == 3:
+        # the highest k bits as mask (a subnet mask typed where a wildcard belongs), address bits below them zero or not
+        kk = draw(st.integers(1, 16))
+        wild = ((1 << kk) - 1) << (32 - kk)
+        base = draw(st.sampled_from([0, base & wild, base, 0x0A140000 & ~wild & ALL1 | (base & wild)]))
+    elif draw(st.integers(0, 5)) == 2:
+        base &= wild  # nothing but wildcard bits set in the address
     case = {"b": base, "w": wild}
     if draw(st.integers(0, 3)) == 0:
         case["max"] = draw(st.integers(0, 30))
